@@ -1,7 +1,7 @@
-\* non-vacuity self-test: the named deviation "groups-of-caller" of the Impl model MUST be refuted (ImplAgrees)
+\* non-vacuity self-test: the named deviation "groups-of-caller" of the Impl model MUST be refuted (invariant ImplAgrees)
 SPECIFICATION Spec
 CONSTANTS
-  Family = "basic"
+  Family = "small"
   Deviation = "groups-of-caller"
   MaxLinks = 2
 INVARIANTS ImplAgrees
